@@ -196,7 +196,7 @@ def draw_case(draw):
                  "l_is_array": draw(st.booleans())}
     return {"nvars": g.nvars, "nin": g.nin, "nbool": g.nbool, "init": init, "init_secret": init_secret,
             "body": body, "a": va, "b": vb, "bitlength": 32, "lists": lists, "fvar": draw(st.integers(-8, 8)) if g.fvar else None, "in_function": draw(st.integers(0, 3)) == 0, "explicit_ctx": draw(st.integers(0, 3)) == 0,
-            "first_line": draw(st.sampled_from([0, 0, 0, 250, 300, 1000, 70000])),
+            "first_line": draw(st.sampled_from([0, 0, 0, 250, 300, 1000, 70000])), "in_handler": draw(st.integers(0, 3)) == 0,
             "names": [draw(st.sampled_from(["x%d", "x%d", "_x%d", "__x%d", "x%d_", "X%d", "acc%d", "_%d"])) % i for i in range(g.nvars)]}
 
 
@@ -494,7 +494,15 @@ def run_oblivious(case, vec, p):
     # the program may sit anywhere in a long source file: its statements then have large line numbers
     src = "\n" * case.get("first_line", 0) + render(case, True)
     try:
-        exec(compile(src, "<c09-oblivious>", "exec"), ns)
+        if case.get("in_handler"):
+            # the whole computation runs inside an except block (a fallback computed after a caught failure): an exception is
+            # "being handled" all the while, which is none of the library's business
+            try:
+                rt.PrivVal(5).assert_lt(3)
+            except AssertionError:
+                exec(compile(src, "<c09-oblivious>", "exec"), ns)
+        else:
+            exec(compile(src, "<c09-oblivious>", "exec"), ns)
     except Exception as ex:
         del ctx_obj.stack[:]
         del ns["_"].stack[:]
